@@ -199,10 +199,7 @@ func raceSignature(stderr string) string {
 	for _, l := range strings.Split(stderr, "\n") {
 		l = strings.TrimSpace(l)
 		if strings.HasPrefix(l, "github.com/yaricom/goNEAT") {
-			f := l
-			if i := strings.Index(f, "("); i > 0 {
-				f = f[:i]
-			}
+			f := strings.TrimSuffix(l, "()")
 			f = strings.TrimPrefix(f, "github.com/yaricom/goNEAT/v4/")
 			dup := false
 			for _, x := range frames {
